@@ -148,3 +148,1009 @@ Proof.
 Qed.
 
 End Know.
+
+(* ------------------------------------------------------------------ every step preserves the invariant *)
+Lemma KInv_enq fixed c g n : KInv c g -> KInv c (mstep fixed c g (XEnq n)).
+Proof.
+  intros [S K]. split.
+  - destruct S as [Slc Sclk Sqe Snd Sdec Stgt Snoqe Ssend]. constructor; simpl; auto.
+    intros k m fl pay seen Hpc. destruct (Ssend k m fl pay seen Hpc) as [A B]. split; [|exact B].
+    intros idx n0 Hle Hn. apply in_or_app. apply nth_error_snoc in Hn. destruct Hn as [Hn|[_ ->]].
+    + left. eapply A; eauto.
+    + right. left. reflexivity.
+  - intros j p Hp. simpl in Hp. specialize (K j p Hp).
+    eapply PK_frame; [| | | | | | | |exact K]; simpl.
+    + intros idx n0 Hn. apply nth_error_snoc in Hn. destruct Hn as [Hn|[_ ->]]; [left; exact Hn|].
+      right. apply in_or_app. right. left. reflexivity.
+    + auto.
+    + intros n0 Hin. left. apply in_or_app. left. exact Hin.
+    + auto.
+    + intros n0 H. exact H.
+    + lia.
+    + intro H. exact H.
+    + intro H. exact H.
+Qed.
+
+Lemma KInv_peer_upd c g k f extra :
+  (forall p, 0 <= lc p -> 0 <= lc (f p) /\ lc (f p) <= lc p /\ stash (f p) = stash p) ->
+  KInv c g ->
+  KInv c (mkG (upd_peer k f (g_peers g)) (g_queue g) (g_pc g) (g_now g) (g_ol g) (g_cache g) (g_qe g)
+              (g_clock g) (g_emitted g) (extra ++ g_log g)).
+Proof.
+  intros Hf [S K]. destruct S as [Slc Sclk Sqe Snd Sdec Stgt Snoqe Ssend].
+  assert (Hold : forall j p', nth_error (upd_peer k f (g_peers g)) j = Some p' ->
+            exists p, nth_error (g_peers g) j = Some p /\ 0 <= lc p' /\ lc p' <= lc p /\ stash p' = stash p).
+  { intros j p' H. rewrite nth_error_upd_peer in H. destruct (Nat.eqb_spec j k) as [->|Hne].
+    - destruct (nth_error (g_peers g) k) as [p|] eqn:E; simpl in H; [|discriminate]. inversion H; subst p'.
+      exists p. split; [reflexivity|]. apply Hf. eapply Slc; eauto.
+    - exists p'. split; [exact H|]. split; [eapply Slc; eauto|]. split; [lia | reflexivity]. }
+  split.
+  - constructor; simpl; auto.
+    + intros j p' H. destruct (Hold j p' H) as (p & _ & H0 & _). exact H0.
+    + intros k0 m fl pay seen Hpc. destruct (Ssend k0 m fl pay seen Hpc) as [A B]. split; [exact A|].
+      intros Hm p' Hp'. destruct (Hold k0 p' Hp') as (p & Hp & _ & _ & Hst). rewrite Hst. apply B; assumption.
+  - intros j p' Hp'. simpl in Hp'. destruct (Hold j p' Hp') as (p & Hp & _ & Hle & Hst).
+    specialize (K j p Hp).
+    eapply PK_frame; [| | | | | | | |exact K]; simpl.
+    + intros idx n Hn. left. exact Hn.
+    + intros e He. apply in_or_app. right. exact He.
+    + intros n Hin. left. exact Hin.
+    + intros n Hn. rewrite Hst. exact Hn.
+    + intros n H. exact H.
+    + lia.
+    + intro H. exact H.
+    + intro H. exact H.
+Qed.
+
+Lemma KInv_addr fixed c g from caddr : KInv c g -> KInv c (mstep fixed c g (XAddr from caddr)).
+Proof.
+  intro H. simpl. apply (KInv_peer_upd c g from _ []); [|exact H].
+  intros p Hp. destruct (caddr =? addr p); simpl; repeat split; auto; lia.
+Qed.
+
+Lemma KInv_reset fixed c g from : KInv c g -> KInv c (mstep fixed c g (XReset from)).
+Proof.
+  intro H. simpl. destruct (nth_error (g_peers g) from) as [p|] eqn:E; [|exact H].
+  pose proof (KInv_peer_upd c g from clear_last [HReset from]) as L. unfold upd_peer in L. rewrite E in L.
+  apply L; [|exact H]. intros q Hq. simpl. repeat split; auto; lia.
+Qed.
+
+Lemma next_dec_dec n k j : dec_phase (next_dec n k) = Some j -> j = k /\ (k < n)%nat.
+Proof. unfold next_dec. destruct (Nat.ltb_spec k n) as [Hlt|Hge]; simpl; intro H; inversion H; subst; auto. Qed.
+
+Lemma next_dec_target n k : target (next_dec n k) = None.
+Proof. unfold next_dec. destruct (k <? n)%nat; reflexivity. Qed.
+
+Lemma KInv_start c g t snap outc :
+  KInv c g -> g_pc g = PIdle -> g_clock g <= t -> KInv c (ostep true c g t snap outc).
+Proof.
+  intros [S K] Hpc Hclk. destruct S as [Slc Sclk Sqe Snd Sdec Stgt Snoqe Ssend].
+  unfold ostep. rewrite Hpc.
+  set (cq := match g_queue g with n :: q' => (Some n, false, q') | [] => (None, true, []) end).
+  assert (Hcq : cq = match g_queue g with n :: q' => (Some n, false, q') | [] => (None, true, []) end) by reflexivity.
+  destruct cq as [[cache qe] q]. 
+  split.
+  - constructor; simpl.
+    + exact Slc.
+    + intros k Hk. reflexivity.
+    + destruct (g_queue g); inversion Hcq; reflexivity.
+    + constructor.
+    + intros k j _ [].
+    + intros k Hk. rewrite next_dec_target in Hk. discriminate.
+    + unfold next_dec. destruct (0 <? length (g_peers g))%nat; exact I.
+    + intros k m fl pay seen H. unfold next_dec in H. destruct (0 <? length (g_peers g))%nat; discriminate.
+  - intros j p Hp. simpl in Hp. specialize (K j p Hp).
+    eapply PK_frame; [| | | | | | | |exact K]; simpl.
+    + intros idx n Hn. left. exact Hn.
+    + auto.
+    + intros n Hin. destruct (g_queue g) as [|h q0]; [contradiction|]. inversion Hcq; subst.
+      destruct Hin as [->|Hin]; [|left; exact Hin].
+      right. unfold in_flight. simpl. split; [reflexivity|].
+      apply nth_error_lt in Hp. unfold next_dec. destruct (Nat.ltb_spec 0 (length (g_peers g))); [|lia].
+      left. lia.
+    + auto.
+    + intros n H. unfold in_flight in H. rewrite Hpc in H. tauto.
+    + lia.
+    + unfold committed. simpl. unfold next_dec. destruct (0 <? length (g_peers g))%nat; simpl;
+        intros [m [[] _]].
+    + unfold res_bound. simpl. unfold next_dec. destruct (0 <? length (g_peers g))%nat; simpl; intros [].
+Qed.
+
+(* a step that only moves the program counter to PPrep / PIdle-like states with nothing bound *)
+Lemma KInv_rdlc c g k t snap outc :
+  KInv c g -> g_pc g = PRdLc k -> KInv c (ostep true c g t snap outc).
+Proof.
+  intros [S K] Hpc. destruct S as [Slc Sclk Sqe Snd Sdec Stgt Snoqe Ssend].
+  unfold ostep. rewrite Hpc. rewrite Hpc in *. 
+  destruct (nth_error (g_peers g) k) as [pk|] eqn:Ek.
+  - split.
+    + constructor; simpl.
+      * exact Slc.
+      * intros k0 H. apply (Sclk k). reflexivity.
+      * exact Sqe.
+      * exact Snd.
+      * intros k0 j H. inversion H; subst. apply Sdec. reflexivity.
+      * discriminate.
+      * exact I.
+      * discriminate.
+    + intros j p Hp. simpl in Hp. destruct (K j p Hp) as (K1 & K2 & K3).
+      assert (Hclk : g_clock g = g_now g) by (apply (Sclk k); reflexivity).
+      assert (HS : forall idx n, strong g j p idx n ->
+                strong (set_pc g (PRdLa k (lc pk))) j p idx n).
+      { intros idx n [H|[H|[H|H]]]; [left; exact H | right; left; exact H | right; right; left; exact H|].
+        right; right; right. unfold in_flight in *. rewrite Hpc in H. simpl. exact H. }
+      split; [|split].
+      * intros idx n Hn. destruct (K1 idx n Hn) as [H|H]; [left; apply HS; exact H | right; exact H].
+      * unfold committed. simpl. intros [[-> Hr]|Hc] idx n Hn.
+        -- rewrite Hp in Ek. inversion Ek; subst pk.
+           destruct (K1 idx n Hn) as [H|H]; [apply HS; exact H|].
+           unfold in_resync_period in H. rewrite Hclk in H. congruence.
+        -- apply HS. apply K2; [|exact Hn]. unfold committed. rewrite Hpc. exact Hc.
+      * unfold res_bound. simpl. intros [[-> Hr]|Hc].
+        -- rewrite Hp in Ek. inversion Ek; subst pk. unfold in_resync_period. simpl. rewrite Hclk. exact Hr.
+        -- apply K3. unfold res_bound. rewrite Hpc. exact Hc.
+  - split.
+    + constructor; simpl.
+      * exact Slc.
+      * discriminate.
+      * exact Sqe.
+      * exact Snd.
+      * discriminate.
+      * discriminate.
+      * exact I.
+      * discriminate.
+    + intros j p Hp. simpl in Hp. specialize (K j p Hp).
+      eapply PK_frame; [| | | | | | | |exact K]; simpl; auto; try lia.
+      * intros n H. unfold in_flight in *. rewrite Hpc in H. simpl. destruct H as [Hc [Hle|Hin]]; [|auto].
+        exfalso. apply nth_error_lt in Hp. apply nth_error_None in Ek. lia.
+      * unfold committed. rewrite Hpc. simpl. auto.
+      * unfold res_bound. rewrite Hpc. simpl. auto.
+Qed.
+
+Lemma decide_reads_resync c now qe lcv lav p :
+  reached (cv_pr c) (now - lcv) (p_resync c) = true ->
+  decide c now qe (with_reads lcv lav p) = Some RESYNC \/ decide c now qe (with_reads lcv lav p) = None.
+Proof.
+  intro H. unfold decide. simpl. rewrite H. destruct (reached (cv_ar c) (now - lav) (a_resync c)); auto.
+Qed.
+
+Lemma decide_reads_sync c now lcv lav p :
+  reached (cv_pr c) (now - lcv) (p_resync c) = false ->
+  decide c now false (with_reads lcv lav p) = Some SYNC.
+Proof.
+  intro H. unfold decide. simpl. rewrite H. rewrite Bool.andb_false_r. reflexivity.
+Qed.
+
+Lemma decide_reads_resync_inv c now qe lcv lav p :
+  decide c now qe (with_reads lcv lav p) = Some RESYNC -> reached (cv_pr c) (now - lcv) (p_resync c) = true.
+Proof. intro H. apply decide_resync_inv in H. simpl in H. tauto. Qed.
+
+Lemma NoDup_snoc1 {A} (l : list A) x : NoDup l -> ~ In x l -> NoDup (l ++ [x]).
+Proof.
+  induction l as [|y l IH]; simpl; intros Hn Hx; [constructor; [intros []|constructor]|].
+  inversion Hn as [|? ? Hy Hn']; subst. constructor.
+  - rewrite in_app_iff. intros [H|[H|[]]]; [contradiction|]. subst. apply Hx. now left.
+  - apply IH; [exact Hn'|]. intro H. apply Hx. now right.
+Qed.
+
+Lemma in_flight_dec_next g g' j n k nn :
+  g_cache g' = g_cache g -> g_pc g' = next_dec nn (S k) ->
+  (j < nn)%nat -> j <> k ->
+  (forall x, In x (g_ol g) -> In x (g_ol g')) ->
+  g_cache g = Some n /\ ((k <= j)%nat \/ In (j, SYNC) (g_ol g)) -> in_flight g' j n.
+Proof.
+  intros Hc Hpc Hj Hne Hol [H1 H2]. unfold in_flight. rewrite Hc, Hpc. split; [exact H1|].
+  unfold next_dec. destruct (Nat.ltb_spec (S k) nn).
+  - destruct H2 as [H2|H2]; [left; lia | right; apply Hol; exact H2].
+  - destruct H2 as [H2|H2]; [lia | apply Hol; exact H2].
+Qed.
+
+Lemma KInv_decided c g k lcv lav :
+  KInv c g -> g_pc g = PRdLa k lcv -> KInv c (decided c g k lcv lav (g_qe g)).
+Proof.
+  intros [S K] Hpc. pose proof S as S0. destruct S as [Slc Sclk Sqe Snd Sdec Stgt Snoqe Ssend].
+  unfold decided. destruct (nth_error (g_peers g) k) as [pk|] eqn:Ek.
+  2:{ split.
+      - constructor; simpl; try assumption; try discriminate. exact I.
+      - intros j p Hp. simpl in Hp. specialize (K j p Hp).
+        eapply PK_frame; [| | | | | | | |exact K]; simpl; auto; try lia.
+        + intros n H. unfold in_flight in *. rewrite Hpc in H. simpl. destruct H as [Hc [Hle|Hin]]; [|auto].
+          exfalso. apply nth_error_lt in Hp. apply nth_error_None in Ek. lia.
+        + unfold committed. rewrite Hpc. simpl. auto.
+        + unfold res_bound. rewrite Hpc. simpl. auto. }
+  set (d := decide c (g_now g) (g_qe g) (with_reads lcv lav pk)).
+  set (ol' := match d with Some m => g_ol g ++ [(k, m)] | None => g_ol g end).
+  assert (Hkk : forall j, In j (map fst (g_ol g)) -> (j < k)%nat) by (intro j; apply Sdec; rewrite Hpc; reflexivity).
+  assert (Hknot : ~ In k (map fst (g_ol g))) by (intro H; apply Hkk in H; lia).
+  assert (Hol : forall x, In x (g_ol g) -> In x ol').
+  { intros x Hx. unfold ol'. destruct d; [apply in_or_app; left|]; exact Hx. }
+  assert (Hol' : forall j m, In (j, m) ol' -> In (j, m) (g_ol g) \/ (j = k /\ d = Some m)).
+  { intros j m H. unfold ol' in H. destruct d as [m0|]; [|left; exact H].
+    apply in_app_or in H. destruct H as [H|[H|[]]]; [left; exact H|]. inversion H; subst. right. auto. }
+  assert (Hclk : g_clock g = g_now g) by (apply (Sclk k); rewrite Hpc; reflexivity).
+  split.
+  - constructor; simpl; try assumption.
+    + intros k0 H. exact Hclk.
+    + fold d. fold ol'. unfold ol'. destruct d; [|exact Snd]. rewrite map_app. simpl. apply NoDup_snoc1; assumption.
+    + intros k0 j H Hin. apply next_dec_dec in H. destruct H as [-> _]. fold d in Hin. fold ol' in Hin.
+      apply in_map_iff in Hin. destruct Hin as [[j0 m0] [Hj Hin]]. simpl in Hj. subst j0.
+      destruct (Hol' j m0 Hin) as [H|[-> _]]; [|lia].
+      assert (j < k)%nat; [|lia]. apply Hkk. apply in_map_iff. exists (j, m0). auto.
+    + intros k0 H. rewrite next_dec_target in H. discriminate.
+    + unfold next_dec. destruct (S k <? length (g_peers g))%nat; exact I.
+    + intros k0 m fl pay seen H. unfold next_dec in H. destruct (S k <? length (g_peers g))%nat; discriminate.
+  - intros j p Hp. simpl in Hp. fold d. fold ol'.
+    destruct (K j p Hp) as (K1 & K2 & K3).
+    set (g' := mkG (g_peers g) (g_queue g) (next_dec (length (g_peers g)) (S k)) (g_now g) ol' (g_cache g) (g_qe g)
+                   (g_clock g) (g_emitted g) (g_log g)).
+    assert (Hcomm' : committed c g' j -> ol_inc ol' j).
+    { unfold committed, g'. simpl. unfold next_dec. destruct (S k <? length (g_peers g))%nat; simpl; auto. }
+    assert (Hres' : res_bound c g' j -> In (j, RESYNC) ol').
+    { unfold res_bound, g'. simpl. unfold next_dec. destruct (S k <? length (g_peers g))%nat; simpl; auto. }
+    destruct (Nat.eq_dec j k) as [->|Hne].
+    + (* the peer just decided *)
+      rewrite Hp in Ek. inversion Ek; subst pk. clear Ek.
+      destruct (reached (cv_pr c) (g_now g - lcv) (p_resync c)) eqn:Er.
+      * assert (HR : in_resync_period c g p).
+        { apply K3. unfold res_bound. rewrite Hpc. left. auto. }
+        assert (Hd : d = Some RESYNC \/ d = None) by (apply decide_reads_resync; exact Er).
+        split; [|split].
+        -- intros idx n Hn. right. exact HR.
+        -- intro Hc. apply Hcomm' in Hc. destruct Hc as [m [Hin Hm]].
+           destruct (Hol' k m Hin) as [H|[_ H]].
+           ++ exfalso. apply Hknot. apply in_map_iff. exists (k, m). auto.
+           ++ destruct Hd as [Hd|Hd]; congruence.
+        -- intros _. exact HR.
+      * assert (Hst : forall idx n, nth_error (g_emitted g) idx = Some n -> strong g k p idx n).
+        { apply K2. unfold committed. rewrite Hpc. left. auto. }
+        assert (HS : forall idx n, strong g k p idx n -> strong g' k p idx n).
+        { intros idx n [H|[H|[H|H]]]; [left; exact H | right; left; exact H | right; right; left; exact H|].
+          right; right; right. unfold in_flight in H. rewrite Hpc in H. destruct H as [Hc _].
+          assert (Hqe : g_qe g = false) by (rewrite Sqe, Hc; reflexivity).
+          assert (Hd : d = Some SYNC) by (unfold d; rewrite Hqe; apply decide_reads_sync; exact Er).
+          unfold in_flight, g'. simpl. split; [exact Hc|].
+          assert (Hin : In (k, SYNC) ol') by (unfold ol'; rewrite Hd; apply in_or_app; right; left; reflexivity).
+          unfold next_dec. destruct (S k <? length (g_peers g))%nat; [right|]; exact Hin. }
+        split; [|split].
+        -- intros idx n Hn. left. apply HS. apply Hst. exact Hn.
+        -- intros _ idx n Hn. apply HS. apply Hst. exact Hn.
+        -- intro Hr. apply Hres' in Hr. destruct (Hol' k RESYNC Hr) as [H|[_ H]].
+           ++ exfalso. apply Hknot. apply in_map_iff. exists (k, RESYNC). auto.
+           ++ apply decide_reads_resync_inv in H. congruence.
+    + eapply (PK_frame c g g'); [| | | | | | | |exact (conj K1 (conj K2 K3))]; unfold g'; simpl; auto; try lia.
+      * intros n H. unfold in_flight in H. rewrite Hpc in H.
+        eapply (in_flight_dec_next g); simpl; eauto. apply nth_error_lt in Hp. exact Hp.
+      * intro Hc. apply Hcomm' in Hc. unfold committed. rewrite Hpc. right.
+        destruct Hc as [m [Hin Hm]]. destruct (Hol' j m Hin) as [H|[H _]]; [|contradiction]. exists m. auto.
+      * intro Hr. apply Hres' in Hr. unfold res_bound. rewrite Hpc. right.
+        destruct (Hol' j RESYNC Hr) as [H|[H _]]; [exact H | contradiction].
+Qed.
+
+Lemma lc_pre_send m p : lc (pre_send m p) = lc p.
+Proof. destruct m; reflexivity. Qed.
+
+Lemma KInv_prep c g t snap outc :
+  KInv c g -> g_pc g = PPrep -> KInv c (ostep true c g t snap outc).
+Proof.
+  intros [S K] Hpc. destruct S as [Slc Sclk Sqe Snd Sdec Stgt Snoqe Ssend].
+  unfold ostep. rewrite Hpc.
+  destruct (g_ol g) as [|[k m] rest] eqn:Eol.
+  - (* outlist exhausted *)
+    split.
+    + constructor; simpl; try assumption; try discriminate.
+      * rewrite Eol. constructor.
+      * exact I.
+    + intros j p Hp. simpl in Hp. specialize (K j p Hp).
+      eapply PK_frame; [| | | | | | | |exact K]; simpl; auto; try lia.
+      * intros n H. unfold in_flight in H. rewrite Hpc, Eol in H. destruct H as [_ []].
+      * unfold committed. simpl. rewrite Eol. intros [m [[] _]].
+      * unfold res_bound. simpl. rewrite Eol. intros [].
+  - assert (Hnd : ~ In k (map fst rest) /\ NoDup (map fst rest)).
+    { simpl in Snd. inversion Snd; auto. }
+    destruct Hnd as [Hk Hnd].
+    destruct (nth_error (g_peers g) k) as [pk|] eqn:Ek.
+    2:{ split.
+        - constructor; simpl; try assumption; try discriminate. exact I.
+        - intros j p Hp. simpl in Hp. specialize (K j p Hp).
+          assert (Hjk : j <> k) by (intro; subst; congruence).
+          eapply PK_frame; [| | | | | | | |exact K]; simpl; auto; try lia.
+          + intros n H. unfold in_flight in *. rewrite Hpc, Eol in H. simpl. destruct H as [Hc [H|H]]; [inversion H; congruence|auto].
+          + unfold committed. rewrite Hpc, Eol. simpl. intros [m0 [H Hm]]. exists m0. split; [right; exact H|exact Hm].
+          + unfold res_bound. rewrite Hpc, Eol. simpl. auto. }
+    set (p1 := pre_send m pk).
+    set (g' := mkG (set_nth k p1 (g_peers g)) (g_queue g)
+                   (PSend k m (msg_flags pk) (payload m snap (cache_note (g_cache g)) p1) (length (g_emitted g)))
+                   (g_now g) rest (g_cache g) (g_qe g) (g_clock g) (g_emitted g) (g_log g)).
+    cbv zeta. fold p1. simpl (if true then _ else _).
+    replace (match m with SYNC => (g_cache g, g_queue g) | _ => (g_cache g, g_queue g) end) with (g_cache g, g_queue g)
+      by (destruct m; reflexivity).
+    fold g'.
+    split.
+    + constructor; unfold g'; simpl; try assumption; try discriminate.
+      * intros j p Hp. rewrite nth_error_set_nth in Hp. destruct (Nat.eqb_spec j k) as [->|Hne].
+        -- rewrite Ek in Hp. inversion Hp. unfold p1. rewrite lc_pre_send. eapply Slc; eauto.
+        -- eapply Slc; eauto.
+      * intros k0 H. inversion H; subst. exact Hk.
+      * exact I.
+      * intros k0 m0 fl pay seen H. inversion H; subst. split.
+        -- intros idx n Hle Hn. apply nth_error_lt in Hn. lia.
+        -- intros -> p Hp. rewrite nth_error_set_nth, Nat.eqb_refl, Ek in Hp. inversion Hp; subst. reflexivity.
+    + intros j p' Hp'. unfold g' in Hp'. simpl in Hp'. rewrite nth_error_set_nth in Hp'.
+      destruct (Nat.eqb_spec j k) as [->|Hne].
+      * rewrite Ek in Hp'. inversion Hp'; subst p'. clear Hp'.
+        destruct (K k pk Ek) as (K1 & K2 & K3).
+        destruct (mode_eq_dec_sync m) as [Hm|Hm]; [|destruct m; [congruence| |]].
+        -- (* SYNC *) subst m. unfold p1. simpl pre_send.
+           assert (Hst : forall idx n, nth_error (g_emitted g) idx = Some n -> strong g k pk idx n).
+           { apply K2. unfold committed. rewrite Hpc, Eol. exists SYNC. split; [left; reflexivity|discriminate]. }
+           assert (HS : forall idx n, strong g k pk idx n -> strong g' k pk idx n).
+           { intros idx n [H|[H|[H|H]]]; [left; exact H | right; left; exact H | right; right; left; exact H|].
+             right; right; right. unfold in_flight in *. rewrite Hpc, Eol in H. unfold g'. simpl.
+             destruct H as [Hc _]. split; [exact Hc|]. left. auto. }
+           split; [|split].
+           ++ intros idx n Hn. left. apply HS, Hst, Hn.
+           ++ intros _ idx n Hn. apply HS, Hst, Hn.
+           ++ unfold res_bound, g'. simpl. intros [[_ H]|H]; [discriminate|].
+              exfalso. apply Hk. apply in_map_iff. exists (k, RESYNC). auto.
+        -- (* PING *) unfold p1. simpl pre_send.
+           assert (Hst : forall idx n, nth_error (g_emitted g) idx = Some n -> strong g k pk idx n).
+           { apply K2. unfold committed. rewrite Hpc, Eol. exists PING. split; [left; reflexivity|discriminate]. }
+           assert (HS : forall idx n, strong g k pk idx n -> strong g' k pk idx n).
+           { intros idx n [H|[H|[H|H]]]; [left; exact H | right; left; exact H | right; right; left; exact H|].
+             exfalso. unfold in_flight in H. rewrite Hpc, Eol in H. destruct H as [_ [H|H]]; [discriminate|].
+             apply Hk. apply in_map_iff. exists (k, SYNC). auto. }
+           split; [|split].
+           ++ intros idx n Hn. left. apply HS, Hst, Hn.
+           ++ intros _ idx n Hn. apply HS, Hst, Hn.
+           ++ unfold res_bound, g'. simpl. intros [[_ H]|H]; [discriminate|].
+              exfalso. apply Hk. apply in_map_iff. exists (k, RESYNC). auto.
+        -- (* RESYNC *)
+           assert (HR : in_resync_period c g pk).
+           { apply K3. unfold res_bound. rewrite Hpc, Eol. left. reflexivity. }
+           assert (HR' : in_resync_period c g' p1) by exact HR.
+           split; [|split].
+           ++ intros idx n Hn. right. exact HR'.
+           ++ unfold committed, g'. simpl. intros [[_ H]|[m0 [H Hm0]]]; [congruence|].
+              exfalso. apply Hk. apply in_map_iff. exists (k, m0). auto.
+           ++ intros _. exact HR'.
+      * specialize (K j p' Hp').
+        eapply (PK_frame c g g'); [| | | | | | | |exact K]; unfold g'; simpl; auto; try lia.
+        -- intros n H. unfold in_flight in *. rewrite Hpc, Eol in H. simpl.
+           destruct H as [Hc [H|H]]; [inversion H; congruence | split; [exact Hc | right; exact H]].
+        -- unfold committed. rewrite Hpc, Eol. simpl. intros [[H _]|[m0 [H Hm0]]]; [congruence|].
+           exists m0. split; [right; exact H | exact Hm0].
+        -- unfold res_bound. rewrite Hpc, Eol. simpl. intros [[H _]|H]; [congruence | right; exact H].
+Qed.
+
+Lemma err_ok_visible outc : err_of outc = 0%nat -> visible outc = true.
+Proof.
+  unfold err_of, visible. destruct (outc =? 0); [reflexivity|].
+  destruct ((outc =? 1) || (outc =? 3)); discriminate.
+Qed.
+
+Lemma KInv_send c g k m fl pay seen t snap outc :
+  KInv c g -> g_pc g = PSend k m fl pay seen -> g_clock g <= t -> KInv c (ostep true c g t snap outc).
+Proof.
+  intros [S K] Hpc Hclk. destruct S as [Slc Sclk Sqe Snd Sdec Stgt Snoqe Ssend].
+  unfold ostep. rewrite Hpc.
+  assert (Hk : ~ In k (map fst (g_ol g))) by (apply Stgt; rewrite Hpc; reflexivity).
+  destruct (nth_error (g_peers g) k) as [pk|] eqn:Ek.
+  2:{ split.
+      - constructor; simpl; try assumption; try discriminate. exact I.
+      - intros j p Hp. simpl in Hp. specialize (K j p Hp).
+        assert (Hjk : j <> k) by (intro; subst; congruence).
+        eapply PK_frame; [| | | | | | | |exact K]; simpl; auto; try lia.
+        + intros n H. unfold in_flight in *. rewrite Hpc in H. simpl. destruct H as [Hc [[H _]|H]]; [congruence|auto].
+        + unfold committed. rewrite Hpc. simpl. auto.
+        + unfold res_bound. rewrite Hpc. simpl. auto. }
+  destruct (Ssend k m fl pay seen Hpc) as [Hseen Hpay].
+  set (err := err_of outc).
+  set (a := mkS k m (g_now g) t fl err (visible outc) (addr pk) pay seen).
+  set (p' := match err, m with
+             | O, SYNC => clear_stash pk
+             | S _, SYNC => append_stash (cache_note (g_cache g)) pk
+             | _, _ => pk end).
+  set (pc' := match err with O => PWrLc k fl t | S _ => PWrLa k t end).
+  set (g' := mkG (set_nth k p' (g_peers g)) (g_queue g) pc' (g_now g) (g_ol g) (g_cache g) (g_qe g) t
+                 (g_emitted g) (HAtt a :: g_log g)).
+  change (KInv c g').
+  assert (Hlc' : lc p' = lc pk) by (unfold p'; destruct err, m; reflexivity).
+  assert (Hpc'd : dec_phase pc' = None) by (unfold pc'; destruct err; reflexivity).
+  assert (Hpc't : target pc' = Some k) by (unfold pc'; destruct err; reflexivity).
+  split.
+  - constructor; unfold g'; simpl; try assumption.
+    + intros j p Hp. rewrite nth_error_set_nth in Hp. destruct (Nat.eqb_spec j k) as [->|Hne].
+      * rewrite Ek in Hp. inversion Hp. rewrite Hlc'. eapply Slc; eauto.
+      * eapply Slc; eauto.
+    + intros k0 H. rewrite Hpc'd in H. discriminate.
+    + intros k0 j H. rewrite Hpc'd in H. discriminate.
+    + intros k0 H. rewrite Hpc't in H. inversion H; subst. exact Hk.
+    + unfold pc'. destruct err; exact I.
+    + intros k0 m0 fl0 pay0 seen0 H. unfold pc' in H. destruct err; discriminate.
+  - intros j q Hq. unfold g' in Hq. simpl in Hq. rewrite nth_error_set_nth in Hq.
+    destruct (Nat.eqb_spec j k) as [->|Hne].
+    + rewrite Ek in Hq. inversion Hq; subst q. clear Hq.
+      destruct (K k pk Ek) as (K1 & K2 & K3).
+      assert (Hres' : ~ res_bound c g' k).
+      { unfold res_bound, g'. simpl. unfold pc'. destruct err; simpl; intro H; apply Hk;
+          apply in_map_iff; exists (k, RESYNC); auto. }
+      assert (Hdl : forall idx n, delivered_to g k idx n -> delivered_to g' k idx n).
+      { intros idx n H. eapply delivered_mono; [|exact H]. unfold g'. simpl. auto. }
+      assert (Hcov : forall idx n, covers k idx n (HAtt a) -> delivered_to g' k idx n).
+      { intros idx n H. exists (HAtt a). split; [unfold g'; simpl; auto | exact H]. }
+      assert (Hnofl : forall n, in_flight g k n -> m = SYNC /\ g_cache g = Some n).
+      { intros n H. unfold in_flight in H. rewrite Hpc in H. destruct H as [Hc [[_ H]|H]]; [auto|].
+        exfalso. apply Hk. apply in_map_iff. exists (k, SYNC). auto. }
+      destruct m.
+      * (* SYNC *)
+        assert (Hst : forall idx n, nth_error (g_emitted g) idx = Some n -> strong g k pk idx n).
+        { apply K2. unfold committed. rewrite Hpc. left. split; [reflexivity|discriminate]. }
+        specialize (Hpay eq_refl pk Ek).
+        assert (HS : forall idx n, strong g k pk idx n -> strong g' k p' idx n).
+        { intros idx n Hs. unfold p', pc' in *. destruct err eqn:Ee.
+          - (* delivered *)
+            assert (Hv : visible outc = true) by (apply err_ok_visible; exact Ee).
+            destruct Hs as [H|[H|[H|H]]]; [left; apply Hdl; exact H | right; left; exact H | |].
+            + left. apply Hcov. simpl. rewrite Hv. repeat split; auto. left. split; [reflexivity|].
+              rewrite Hpay. apply note_in_app_r. exact H.
+            + left. apply Hcov. simpl. rewrite Hv. repeat split; auto. left. split; [reflexivity|].
+              destruct (Hnofl n H) as [_ Hc]. rewrite Hpay, Hc. simpl. apply note_in_app_l.
+          - destruct Hs as [H|[H|[H|H]]]; [left; apply Hdl; exact H | right; left; exact H | |].
+            + right; right; left. rewrite stash_append. apply note_in_app_left. exact H.
+            + right; right; left. destruct (Hnofl n H) as [_ Hc]. rewrite stash_append, Hc. simpl.
+              apply note_in_app_r. unfold note_in. repeat split; apply incl_refl. }
+        split; [|split].
+        -- intros idx n Hn. left. apply HS, Hst, Hn.
+        -- intros _ idx n Hn. apply HS, Hst, Hn.
+        -- intro H. contradiction.
+      * (* PING *)
+        assert (Hst : forall idx n, nth_error (g_emitted g) idx = Some n -> strong g k pk idx n).
+        { apply K2. unfold committed. rewrite Hpc. left. split; [reflexivity|discriminate]. }
+        assert (Hp' : p' = pk) by (unfold p'; destruct err; reflexivity).
+        assert (HS : forall idx n, strong g k pk idx n -> strong g' k p' idx n).
+        { intros idx n [H|[H|[H|H]]]; rewrite Hp'; [left; apply Hdl; exact H | right; left; exact H | right; right; left; exact H|].
+          destruct (Hnofl n H) as [H0 _]. discriminate. }
+        split; [|split].
+        -- intros idx n Hn. left. apply HS, Hst, Hn.
+        -- intros _ idx n Hn. apply HS, Hst, Hn.
+        -- intro H. contradiction.
+      * (* RESYNC *)
+        assert (Hp' : p' = pk) by (unfold p'; destruct err; reflexivity).
+        assert (HR : in_resync_period c g pk).
+        { apply K3. unfold res_bound. rewrite Hpc. left. auto. }
+        assert (HR' : in_resync_period c g' p').
+        { rewrite Hp'. unfold in_resync_period in *. unfold g'. simpl. eapply reached_mono; [|exact HR]. lia. }
+        split; [|split].
+        -- intros idx n Hn. right. exact HR'.
+        -- unfold committed, g'. simpl. unfold pc'. destruct err eqn:Ee; simpl.
+           ++ intros _ idx n Hn.
+              assert (Hv : visible outc = true) by (apply err_ok_visible; exact Ee).
+              destruct (Nat.lt_ge_cases idx seen) as [Hlt|Hge].
+              ** left. exists (HAtt a). split; [left; reflexivity|]. simpl. rewrite Hv. repeat split; auto.
+              ** right. left. eapply Hseen; eauto.
+           ++ intros [m0 [H Hm0]]. exfalso. apply Hk. apply in_map_iff. exists (k, m0). auto.
+        -- intro H. contradiction.
+    + specialize (K j q Hq).
+      eapply (PK_frame c g g'); [| | | | | | | |exact K]; unfold g'; simpl; auto; try lia.
+      * intros n H. unfold in_flight in *. rewrite Hpc in H. simpl.
+        destruct H as [Hc [[H _]|H]]; [congruence|]. split; [exact Hc|]. unfold pc'. destruct err; exact H.
+      * unfold committed. rewrite Hpc. simpl. unfold pc'. destruct err; simpl.
+        -- intros [H|H]; [congruence | right; exact H].
+        -- intro H. right. exact H.
+      * unfold res_bound. rewrite Hpc. simpl. unfold pc'. destruct err; simpl; intro H; right; exact H.
+Qed.
+
+Lemma KInv_wrlc c g k fl t' t snap outc :
+  KInv c g -> g_pc g = PWrLc k fl t' -> KInv c (ostep true c g t snap outc).
+Proof.
+  intros [S K] Hpc. destruct S as [Slc Sclk Sqe Snd Sdec Stgt Snoqe Ssend].
+  unfold ostep. rewrite Hpc.
+  assert (Hk : ~ In k (map fst (g_ol g))) by (apply Stgt; rewrite Hpc; reflexivity).
+  set (f := fun p : peer => let p' := set_lc t' p in if fl then set_fr false p' else p').
+  assert (Hf : forall p, 0 <= lc (f p) /\ stash (f p) = stash p).
+  { intro p. unfold f. destruct fl; simpl; split; try reflexivity; lia. }
+  set (g' := mkG (upd_peer k f (g_peers g)) (g_queue g) (PWrLa k t') (g_now g) (g_ol g) (g_cache g) (g_qe g)
+                 (g_clock g) (g_emitted g) (g_log g)).
+  change (KInv c g').
+  split.
+  - constructor; unfold g'; simpl; try assumption; try discriminate.
+    + intros j p Hp. rewrite nth_error_upd_peer in Hp. destruct (Nat.eqb_spec j k) as [->|Hne].
+      * destruct (nth_error (g_peers g) k); simpl in Hp; [|discriminate]. inversion Hp. apply Hf.
+      * eapply Slc; eauto.
+    + intros k0 H. inversion H; subst. exact Hk.
+    + exact I.
+  - intros j q Hq. unfold g' in Hq. simpl in Hq. rewrite nth_error_upd_peer in Hq.
+    destruct (Nat.eqb_spec j k) as [->|Hne].
+    + destruct (nth_error (g_peers g) k) as [pk|] eqn:Ek; simpl in Hq; [|discriminate]. inversion Hq; subst q. clear Hq.
+      destruct (K k pk Ek) as (K1 & K2 & K3).
+      assert (Hst : forall idx n, nth_error (g_emitted g) idx = Some n -> strong g k pk idx n).
+      { apply K2. unfold committed. rewrite Hpc. left. reflexivity. }
+      assert (HS : forall idx n, strong g k pk idx n -> strong g' k (f pk) idx n).
+      { intros idx n [H|[H|[H|H]]]; [left; exact H | right; left; exact H | |].
+        - right; right; left. destruct (Hf pk) as [_ ->]. exact H.
+        - right; right; right. unfold in_flight in *. rewrite Hpc in H. exact H. }
+      split; [|split].
+      * intros idx n Hn. left. apply HS, Hst, Hn.
+      * intros _ idx n Hn. apply HS, Hst, Hn.
+      * unfold res_bound, g'. simpl. intro H. exfalso. apply Hk. apply in_map_iff. exists (k, RESYNC). auto.
+    + specialize (K j q Hq).
+      eapply (PK_frame c g g'); [| | | | | | | |exact K]; unfold g'; simpl; auto; try lia.
+      * intros n H. unfold in_flight in *. rewrite Hpc in H. exact H.
+      * unfold committed. rewrite Hpc. simpl. auto.
+      * unfold res_bound. rewrite Hpc. simpl. auto.
+Qed.
+
+Lemma KInv_wrla c g k t' t snap outc :
+  KInv c g -> g_pc g = PWrLa k t' -> KInv c (ostep true c g t snap outc).
+Proof.
+  intros [S K] Hpc. destruct S as [Slc Sclk Sqe Snd Sdec Stgt Snoqe Ssend].
+  unfold ostep. rewrite Hpc.
+  set (g' := mkG (upd_peer k (set_la t') (g_peers g)) (g_queue g) PPrep (g_now g) (g_ol g) (g_cache g) (g_qe g)
+                 (g_clock g) (g_emitted g) (g_log g)).
+  change (KInv c g').
+  assert (Hold : forall j q, nth_error (upd_peer k (set_la t') (g_peers g)) j = Some q ->
+            exists p, nth_error (g_peers g) j = Some p /\ lc q = lc p /\ stash q = stash p).
+  { intros j q H. rewrite nth_error_upd_peer in H. destruct (Nat.eqb_spec j k) as [->|Hne].
+    - destruct (nth_error (g_peers g) k) as [p|]; simpl in H; [|discriminate]. inversion H. exists p. auto.
+    - exists q. auto. }
+  split.
+  - constructor; unfold g'; simpl; try assumption; try discriminate.
+    + intros j q Hq. destruct (Hold j q Hq) as (p & Hp & -> & _). eapply Slc; eauto.
+    + exact I.
+  - intros j q Hq. unfold g' in Hq. simpl in Hq. destruct (Hold j q Hq) as (p & Hp & Hlc & Hst).
+    specialize (K j p Hp).
+    eapply (PK_frame c g g'); [| | | | | | | |exact K]; unfold g'; simpl; auto; try lia.
+    + intros n H. rewrite Hst. exact H.
+    + intros n H. unfold in_flight in *. rewrite Hpc in H. exact H.
+    + unfold committed. rewrite Hpc. simpl. auto.
+    + unfold res_bound. rewrite Hpc. simpl. auto.
+Qed.
+
+(* one action of an admissible schedule, repaired order *)
+Theorem KInv_step c g a : KInv c g -> act_ok g a -> KInv c (mstep true c g a).
+Proof.
+  intros HK Hok. destruct a as [n|from caddr|from|t snap outc].
+  - apply KInv_enq. exact HK.
+  - apply KInv_addr. exact HK.
+  - apply KInv_reset. exact HK.
+  - simpl. simpl in Hok. destruct (g_pc g) eqn:Hpc.
+    + apply KInv_start; auto.
+    + eapply KInv_rdlc; eauto.
+    + unfold ostep. rewrite Hpc. destruct (nth_error (g_peers g) k) as [p|] eqn:Ek.
+      * apply KInv_decided; assumption.
+      * pose proof (KInv_decided c g k lcv 0 HK Hpc) as H. unfold decided in H. rewrite Ek in H. exact H.
+    + destruct HK as [S _]. destruct S. rewrite Hpc in *. contradiction.
+    + apply KInv_prep; assumption.
+    + eapply KInv_send; eauto.
+    + eapply KInv_wrlc; eauto.
+    + eapply KInv_wrla; eauto.
+Qed.
+
+Lemma KInv_init c ps q clock : (forall j p, nth_error ps j = Some p -> 0 <= lc p) -> KInv c (ginit ps q clock).
+Proof.
+  intro H. split.
+  - constructor; simpl; try discriminate; auto. constructor.
+  - intros j p Hp. split; [|split].
+    + intros idx n Hn. simpl in Hn. destruct idx; discriminate.
+    + intros _ idx n Hn. simpl in Hn. destruct idx; discriminate.
+    + unfold res_bound. simpl. intros [].
+Qed.
+
+Theorem knowledge_inv : forall c ps q clock g,
+  (forall j p, nth_error ps j = Some p -> 0 <= lc p) ->
+  reach true c act_ok (ginit ps q clock) g -> knowledge c g.
+Proof.
+  intros c ps q clock g Hps Hr.
+  assert (HK : KInv c g).
+  { induction Hr as [|g a Hr IH Hok]; [apply KInv_init; exact Hps | apply KInv_step; assumption]. }
+  destruct HK as [_ K]. intros j p idx n Hp Hn. destruct (K j p Hp) as (K1 & _ & _).
+  unfold knows. destruct (K1 idx n Hn) as [[H|[H|[H|H]]]|H]; auto.
+Qed.
+
+(* ------------------------------------------------------------------ schedules *)
+Fixpoint sched_ok (ok : gstate -> act -> Prop) (fixed : bool) (c : tcfg) (g : gstate) (acts : list act) : Prop :=
+  match acts with
+  | [] => True
+  | a :: r => ok g a /\ sched_ok ok fixed c (mstep fixed c g a) r
+  end.
+
+Lemma reach_sched ok fixed c g0 : forall acts g,
+  reach fixed c ok g0 g -> sched_ok ok fixed c g acts -> reach fixed c ok g0 (mrun fixed c g acts).
+Proof.
+  induction acts as [|a r IH]; intros g Hr Hs; simpl; [exact Hr|].
+  destruct Hs as [Ha Hs]. apply IH; [|exact Hs]. apply reach_step; assumption.
+Qed.
+
+(* ------------------------------------------------------------------ D9 on the pinned order *)
+Definition d9_cfg : tcfg := mkCfg 30 60 5 5 10 (true, true, true, true, true).
+Definition d9_peers : list peer := [mkPeer 1000 1000 false [] [] [] 11; mkPeer 1000 1000 false [] [] [] 12].
+Definition d9_note : note := mkNote [] [] [7].
+Definition o1 : act := OStep 1001 empty_note 0.
+(* start; peer 0: last_comms, last_attempt, queue empty -> nothing to send; THE DECIDER REPORTS A CHANGE;
+   peer 1: last_comms, last_attempt, queue non-empty -> SYNC; the item is taken and sent to peer 1 only *)
+Definition d9_sched : list act :=
+  [o1; o1; o1; o1; XEnq d9_note; o1; o1; o1; o1; o1; o1; o1; o1].
+
+Theorem lost_note_refuted :
+  exists c ps acts,
+    (forall j p, nth_error ps j = Some p -> 0 <= lc p) /\
+    reach false c act_ok (ginit ps [] 1000) (mrun false c (ginit ps [] 1000) acts) /\
+    ~ knowledge c (mrun false c (ginit ps [] 1000) acts).
+Proof.
+  exists d9_cfg, d9_peers, d9_sched. split; [|split].
+  - intros j p H. destruct j as [|[|j]]; simpl in H;
+      [inversion H; simpl; lia | inversion H; simpl; lia | destruct j; discriminate].
+  - apply reach_sched; [apply reach_refl|]. vm_compute. repeat split; intros; try discriminate.
+  - intro H.
+    specialize (H 0%nat (mkPeer 1000 1000 false [] [] [] 11) 0%nat d9_note eq_refl eq_refl).
+    destruct H as [[e [Hin Hc]]|[H|[H|[H|H]]]].
+    + vm_compute in Hin. destruct Hin as [<-|[]]. simpl in Hc. destruct Hc as [Hc _]. discriminate.
+    + vm_compute in H. exact H.
+    + destruct H as (_ & _ & H). specialize (H 7 (or_introl eq_refl)). vm_compute in H. exact H.
+    + unfold in_flight in H. vm_compute in H. tauto.
+    + unfold in_resync_period in H. vm_compute in H. discriminate.
+Qed.
+
+(* the same interleaving on the repaired order: the change reported while the loop is deciding stays in the
+   queue, and the next iteration sends it to both peers *)
+Definition d9_sched_fixed : list act := [o1; o1; o1; XEnq d9_note; o1; o1; o1].
+Definition o2 : act := OStep 1002 empty_note 0.
+Example d9_fixed_keeps :
+  let g := mrun true d9_cfg (ginit d9_peers [] 1000) d9_sched_fixed in
+  g_queue g = [d9_note] /\ g_log g = [] /\ g_pc g = PIdle /\
+  map (fun e => match e with HAtt a => (s_peer a, mode_code (s_mode a), s_pay a) | HReset i => (i, -1, empty_note) end)
+      (g_log (mrun true d9_cfg g (repeat o2 15))) = [(1%nat, 0, d9_note); (0%nat, 0, d9_note)].
+Proof. vm_compute. repeat split; reflexivity. Qed.
+
+(* ------------------------------------------------------------------ RESYNC before anything incremental *)
+(* last successful contact with peer i according to the log (newest first): the end of the last delivered
+   message, 0 after a handled RESET, the initial last_comms if neither happened *)
+Fixpoint last_contact (i : nat) (lc0 : Z) (rl : list ev) : Z :=
+  match rl with
+  | [] => lc0
+  | EAtt a :: r => if Nat.eqb (at_peer a) i && is_ok (at_err a) then Z.max 0 (at_done a) else last_contact i lc0 r
+  | EReset j :: r => if Nat.eqb j i then 0 else last_contact i lc0 r
+  end.
+
+Theorem resync_before_incremental : forall c s acts i p0 l1 a l2,
+  nth_error (o_peers s) i = Some p0 ->
+  log_of c s acts = l1 ++ EAtt a :: l2 -> at_peer a = i -> at_mode a <> RESYNC ->
+  at_dec a - last_contact i (lc p0) (rev l1) <= p_resync c.
+Proof.
+  intros c s acts i p0 l1 a l2 Hp0 Hlog Hpa Hm.
+  set (I := fun (p : peer) (rl : list ev) => lc p = last_contact i (lc p0) rl).
+  set (P := fun (rl : list ev) (b : attempt) => at_mode b <> RESYNC -> at_dec b - last_contact i (lc p0) rl <= p_resync c).
+  assert (Hmain : AllP i P (snd (run c s acts []))).
+  { apply (hist_ind c i I P).
+    - intros p rl now qe m b cn HI Hd Hpb Hmb Hdec Hq Hf. split.
+      + intro Hne. rewrite Hdec. unfold I in HI. rewrite <- HI. rewrite Hmb in Hne. destruct m; [| |congruence].
+        * apply mt_sync_inv in Hd. tauto.
+        * apply mt_ping_inv in Hd. tauto.
+      + unfold I.
+        destruct (post_send_effects m (fr p) (at_err b) (at_done b) cn p) as (_ & Hlc & _).
+        rewrite Hlc. cbn [last_contact]. rewrite Hpb, Nat.eqb_refl. cbn [andb].
+        destruct (is_ok (at_err b)); [reflexivity | exact HI].
+    - intros p rl e HI Hne. unfold I in *. destruct e as [b|j]; simpl in *.
+      + rewrite (proj2 (Nat.eqb_neq _ _) Hne). simpl. exact HI.
+      + rewrite (proj2 (Nat.eqb_neq _ _) Hne). exact HI.
+    - intros p rl x HI. exact HI.
+    - intros p rl HI. unfold I. simpl. rewrite Nat.eqb_refl. reflexivity.
+    - intros p Hp. unfold I. simpl. congruence.
+    - exact Logic.I. }
+  apply log_split in Hlog. rewrite Hlog in Hmain.
+  apply (AllP_at i P) in Hmain; [|exact Hpa].
+  apply Hmain. exact Hm.
+Qed.
+
+(* ------------------------------------------------------------------ C07: a handled RESET is answered by a RESYNC *)
+Definition pendb (b0 : bool) (o : option hev) : bool :=
+  match o with None => b0 | Some (HReset _) => true | Some (HAtt _) => false end.
+
+Fixpoint answered (b0 : bool) (j : nat) (rl : list hev) : Prop :=
+  match rl with
+  | [] => True
+  | HAtt a :: r => (s_peer a = j -> pendb b0 (last_hev j r) = true -> s_mode a = RESYNC) /\ answered b0 j r
+  | _ :: r => answered b0 j r
+  end.
+
+Lemma answered_resets b0 j rl : answered b0 j rl -> resets_answered j rl.
+Proof.
+  induction rl as [|e r IH]; simpl; [auto|]. destruct e as [a|i]; [|exact IH].
+  intros [H1 H2]. split; [|apply IH; exact H2]. intros Hp Hr. apply H1; [exact Hp|].
+  destruct (last_hev j r) as [[b|i]|]; simpl in *; try discriminate; reflexivity.
+Qed.
+
+Lemma answered_first j rl : answered true j rl -> first_is_resync j rl.
+Proof.
+  induction rl as [|e r IH]; simpl; [auto|]. destruct e as [a|i]; [|exact IH].
+  intros [H1 H2]. split; [|apply IH; exact H2]. intros Hp Hr. apply H1; [exact Hp|]. rewrite Hr. reflexivity.
+Qed.
+
+Definition pc_clause (j : nat) (p : pc) : Prop :=
+  match p with
+  | PRdLa k lcv | PRdQe k lcv _ => k = j -> lcv = 0
+  | PSend k m _ _ _ => k = j -> m = RESYNC
+  | PWrLc k _ _ => k <> j
+  | _ => True
+  end.
+
+Definition RInv (b0 : bool) (c : tcfg) (j : nat) (g : gstate) : Prop :=
+  answered b0 j (g_log g) /\
+  (g_pc g <> PIdle -> p_resync c < g_now g) /\
+  (pendb b0 (last_hev j (g_log g)) = true ->
+     (forall p, nth_error (g_peers g) j = Some p -> lc p = 0) /\ pc_clause j (g_pc g) /\
+     (forall m, In (j, m) (g_ol g) -> m = RESYNC)).
+
+Definition real_free (c : tcfg) (g : gstate) (a : act) : Prop := act_real c g a /\ race_free g a.
+
+Lemma decided_RInv b0 c j g k lcv lav qe :
+  answered b0 j (g_log g) -> p_resync c < g_now g ->
+  (pendb b0 (last_hev j (g_log g)) = true ->
+     (forall p, nth_error (g_peers g) j = Some p -> lc p = 0) /\ (k = j -> lcv = 0) /\
+     (forall m, In (j, m) (g_ol g) -> m = RESYNC)) ->
+  RInv b0 c j (decided c g k lcv lav qe).
+Proof.
+  intros A Hnow C. unfold decided.
+  destruct (nth_error (g_peers g) k) as [pk|] eqn:Ek.
+  - split; [exact A|]. split; [intros _; exact Hnow|]. simpl. intro Hp. destruct (C Hp) as (C1 & C2 & C3).
+    split; [exact C1|]. split; [unfold next_dec; destruct (S k <? length (g_peers g))%nat; exact I|].
+    intros m Hin.
+    destruct (decide c (g_now g) qe (with_reads lcv lav pk)) as [m0|] eqn:Ed; [|apply C3; exact Hin].
+    apply in_app_or in Hin. destruct Hin as [Hin|[Hin|[]]]; [apply C3; exact Hin|].
+    inversion Hin; subst.
+    assert (Hl : lcv = 0) by (apply C2; reflexivity).
+    eapply mt_resync_only; [|exact Ed]. simpl. lia.
+  - split; [exact A|]. split; [intros _; exact Hnow|]. simpl. intro Hp. destruct (C Hp) as (C1 & C2 & C3).
+    split; [exact C1|]. split; [exact I | exact C3].
+Qed.
+
+Lemma RInv_step b0 c fixed j g a : RInv b0 c j g -> real_free c g a -> RInv b0 c j (mstep fixed c g a).
+Proof.
+  intros (A & B & C) [Hreal Hfree]. destruct a as [n|from caddr|from|t snap outc].
+  - (* enqueue *) exact (conj A (conj B C)).
+  - (* address *) split; [exact A|]. split; [exact B|]. simpl. intro Hp. destruct (C Hp) as (C1 & C2 & C3).
+    split; [|split; assumption]. intros p Hn. rewrite nth_error_upd_peer in Hn.
+    destruct (Nat.eqb_spec j from) as [->|Hne]; [|apply C1; exact Hn].
+    destruct (nth_error (g_peers g) from) as [q|] eqn:Eq; simpl in Hn; [|discriminate]. inversion Hn.
+    destruct (caddr =? addr q); simpl; apply (C1 q); reflexivity.
+  - (* RESET handled *)
+    simpl. destruct (nth_error (g_peers g) from) as [q|] eqn:Eq; [|exact (conj A (conj B C))].
+    split; [exact A|]. split; [exact B|]. simpl.
+    destruct (Nat.eqb_spec from j) as [->|Hne].
+    + intros _. simpl in Hfree. split; [|split].
+      * intros p Hn. rewrite nth_error_set_nth, Nat.eqb_refl, Eq in Hn. inversion Hn. reflexivity.
+      * unfold in_window in Hfree. unfold pc_clause. destruct (g_pc g); try exact I; intro; subst; exfalso; apply Hfree; auto.
+      * intros m Hin. exfalso. apply Hfree. unfold in_window.
+        assert (In j (map fst (g_ol g))) by (apply in_map_iff; exists (j, m); auto).
+        destruct (g_pc g); auto.
+    + intro Hp. destruct (C Hp) as (C1 & C2 & C3). split; [|split; assumption].
+      intros p Hn. rewrite nth_error_set_nth in Hn. destruct (Nat.eqb_spec j from); [congruence|]. apply C1; exact Hn.
+  - (* the outgoing thread *)
+    simpl. simpl in Hreal. unfold ostep. destruct (g_pc g) eqn:Hpc.
+    + (* start *)
+      destruct (Hreal eq_refl) as [Hr _].
+      assert (G : forall cache qe q,
+                RInv b0 c j (mkG (g_peers g) q (next_dec (length (g_peers g)) 0) t [] cache qe t (g_emitted g) (g_log g))).
+      { intros cache qe q. split; [exact A|]. split; [intros _; exact Hr|]. simpl. intro Hp.
+        destruct (C Hp) as (C1 & _ & _). split; [exact C1|]. split; [|intros m []].
+        unfold next_dec. destruct (0 <? length (g_peers g))%nat; exact I. }
+      destruct fixed; [destruct (g_queue g)|]; apply G.
+    + (* last_comms read *)
+      destruct (nth_error (g_peers g) k) as [pk|] eqn:Ek.
+      * split; [exact A|]. split; [intros _; apply B; discriminate|]. simpl. intro Hp. destruct (C Hp) as (C1 & _ & C3).
+        split; [exact C1|]. split; [|exact C3]. intros ->. apply C1. exact Ek.
+      * split; [exact A|]. split; [intros _; apply B; discriminate|]. simpl. intro Hp. destruct (C Hp) as (C1 & _ & C3).
+        split; [exact C1|]. split; [exact I | exact C3].
+    + (* last_attempt read *)
+      destruct (nth_error (g_peers g) k) as [pk|] eqn:Ek.
+      * destruct fixed.
+        -- apply decided_RInv; [exact A | apply B; discriminate | exact C].
+        -- split; [exact A|]. split; [intros _; apply B; discriminate|]. simpl. intro Hp.
+           destruct (C Hp) as (C1 & C2 & C3). split; [exact C1|]. split; [exact C2 | exact C3].
+      * split; [exact A|]. split; [intros _; apply B; discriminate|]. simpl. intro Hp. destruct (C Hp) as (C1 & _ & C3).
+        split; [exact C1|]. split; [exact I | exact C3].
+    + (* queue emptiness read *)
+      apply decided_RInv; [exact A | apply B; discriminate | exact C].
+    + (* next entry of outlist *)
+      assert (Hnow : p_resync c < g_now g) by (apply B; discriminate).
+      destruct (g_ol g) as [|[k m] rest] eqn:Eol.
+      * split; [exact A|]. split; [intro H; exfalso; apply H; reflexivity|]. simpl. intro Hp.
+        destruct (C Hp) as (C1 & _ & C3). split; [exact C1|]. split; [exact I | rewrite Eol; exact C3].
+      * destruct (nth_error (g_peers g) k) as [pk|] eqn:Ek.
+        -- assert (G : forall cache q pay,
+                     RInv b0 c j (mkG (set_nth k (pre_send m pk) (g_peers g)) q
+                                      (PSend k m (msg_flags pk) pay (length (g_emitted g)))
+                                      (g_now g) rest cache (g_qe g) (g_clock g) (g_emitted g) (g_log g))).
+           { intros cache q pay. split; [exact A|]. split; [intros _; exact Hnow|]. simpl. intro Hp.
+             destruct (C Hp) as (C1 & _ & C3). split; [|split].
+             - intros p Hn. rewrite nth_error_set_nth in Hn. destruct (Nat.eqb_spec j k) as [->|Hne]; [|apply C1; exact Hn].
+               rewrite Ek in Hn. inversion Hn. rewrite lc_pre_send. apply C1. exact Ek.
+             - intros ->. apply C3. left. reflexivity.
+             - intros m0 Hin. apply C3. right. exact Hin. }
+           destruct m; [destruct fixed; [|destruct (pop_queue (g_cache g) (g_queue g))]| |]; apply G.
+        -- split; [exact A|]. split; [intros _; exact Hnow|]. simpl. intro Hp.
+           destruct (C Hp) as (C1 & _ & C3). split; [exact C1|]. split; [exact I|].
+           intros m0 Hin. apply C3. right. exact Hin.
+    + (* send *)
+      assert (Hnow : p_resync c < g_now g) by (apply B; discriminate).
+      destruct (nth_error (g_peers g) k) as [pk|] eqn:Ek.
+      * set (a := mkS k m (g_now g) t flagged (err_of outc) (visible outc) (addr pk) pay seen).
+        split; [|split].
+        -- simpl. split; [|exact A]. intros Hk Hp. subst k. destruct (C Hp) as (_ & C2 & _). apply C2. reflexivity.
+        -- intros _. exact Hnow.
+        -- simpl. destruct (Nat.eqb_spec k j) as [->|Hne]; [simpl; discriminate|].
+           intro Hp. destruct (C Hp) as (C1 & _ & C3). split; [|split].
+           ++ intros p Hn. rewrite nth_error_set_nth in Hn. destruct (Nat.eqb_spec j k); [congruence|]. apply C1; exact Hn.
+           ++ destruct (err_of outc); simpl; [exact Hne | exact I].
+           ++ exact C3.
+      * split; [exact A|]. split; [intros _; exact Hnow|]. simpl. intro Hp.
+        destruct (C Hp) as (C1 & _ & C3). split; [exact C1|]. split; [exact I | exact C3].
+    + (* last_comms written *)
+      split; [exact A|]. split; [intros _; apply B; discriminate|]. simpl. intro Hp.
+      destruct (C Hp) as (C1 & C2 & C3). simpl in C2. split; [|split; [exact I | exact C3]].
+      intros p Hn. rewrite nth_error_upd_peer in Hn. destruct (Nat.eqb_spec j k); [congruence|]. apply C1; exact Hn.
+    + (* last_attempt written *)
+      split; [exact A|]. split; [intros _; apply B; discriminate|]. simpl. intro Hp.
+      destruct (C Hp) as (C1 & _ & C3). split; [|split; [exact I | exact C3]].
+      intros p Hn. rewrite nth_error_upd_peer in Hn. destruct (Nat.eqb_spec j k) as [->|Hne]; [|apply C1; exact Hn].
+      destruct (nth_error (g_peers g) k) as [q|] eqn:Eq; simpl in Hn; [|discriminate]. inversion Hn. simpl.
+      apply (C1 q). reflexivity.
+Qed.
+
+Lemma RInv_reach b0 c fixed j g0 g :
+  RInv b0 c j g0 -> reach fixed c (real_free c) g0 g -> RInv b0 c j g.
+Proof. intros H0 Hr. induction Hr as [|g a Hr IH Hok]; [exact H0 | apply RInv_step; assumption]. Qed.
+
+Lemma RInv_init b0 c j ps q clock :
+  (b0 = true -> forall p, nth_error ps j = Some p -> lc p = 0) -> RInv b0 c j (ginit ps q clock).
+Proof.
+  intro H. split; [exact I|]. split; [intro Hn; exfalso; apply Hn; reflexivity|]. simpl. intro Hb.
+  split; [apply H; exact Hb|]. split; [exact I | intros m []].
+Qed.
+
+(* Survivor: from any initial state, under every schedule in which no RESET from peer j is handled inside
+   the window of j (and the clock is a real one), every attempt to j that follows a handled RESET is a RESYNC *)
+Theorem reset_answered : forall fixed c ps q clock j g,
+  reach fixed c (real_free c) (ginit ps q clock) g -> resets_answered j (g_log g).
+Proof.
+  intros fixed c ps q clock j g Hr. apply (answered_resets false).
+  apply (RInv_reach false c fixed j (ginit ps q clock) g); [apply RInv_init; discriminate | exact Hr].
+Qed.
+
+(* Restarted instance: last_comms = 0 for everyone, so the first attempt to each peer is a RESYNC *)
+Theorem first_resync : forall fixed c ps q clock j g,
+  (forall p, nth_error ps j = Some p -> lc p = 0) ->
+  reach fixed c (real_free c) (ginit ps q clock) g -> first_is_resync j (g_log g).
+Proof.
+  intros fixed c ps q clock j g H0 Hr. apply answered_first.
+  apply (RInv_reach true c fixed j (ginit ps q clock) g); [apply RInv_init; intros _; exact H0 | exact Hr].
+Qed.
+
+(* ------------------------------------------------------------------ C07: the restart flag until the first delivery *)
+Definition fl_clause (j : nat) (p : pc) : Prop :=
+  match p with
+  | PSend k _ fl _ _ => k = j -> fl = true
+  | PWrLc k _ _ => k <> j
+  | _ => True
+  end.
+
+Definition FInv (j : nat) (g : gstate) : Prop :=
+  flag_kept j (g_log g) /\
+  (existsb (ok_att j) (g_log g) = false ->
+     (forall p, nth_error (g_peers g) j = Some p -> fr p = true) /\ fl_clause j (g_pc g)).
+
+Lemma fr_pre_send m p : fr (pre_send m p) = fr p.
+Proof. destruct m; reflexivity. Qed.
+
+Lemma FInv_decided c j g k lcv lav qe :
+  flag_kept j (g_log g) ->
+  (existsb (ok_att j) (g_log g) = false -> forall p, nth_error (g_peers g) j = Some p -> fr p = true) ->
+  FInv j (decided c g k lcv lav qe).
+Proof.
+  intros A C. unfold decided. destruct (nth_error (g_peers g) k) as [pk|].
+  - split; [exact A|]. simpl. intro H. split; [apply C; exact H|].
+    unfold next_dec. destruct (S k <? length (g_peers g))%nat; exact I.
+  - split; [exact A|]. simpl. intro H. split; [apply C; exact H | exact I].
+Qed.
+
+Lemma FInv_step c fixed j g a : FInv j g -> FInv j (mstep fixed c g a).
+Proof.
+  intros [A C]. destruct a as [n|from caddr|from|t snap outc].
+  - exact (conj A C).
+  - split; [exact A|]. simpl. intro H. destruct (C H) as [C1 C2]. split; [|exact C2].
+    intros p Hn. rewrite nth_error_upd_peer in Hn. destruct (Nat.eqb_spec j from) as [->|Hne]; [|apply C1; exact Hn].
+    destruct (nth_error (g_peers g) from) as [q|] eqn:Eq; simpl in Hn; [|discriminate]. inversion Hn.
+    destruct (caddr =? addr q); simpl; apply (C1 q); reflexivity.
+  - simpl. destruct (nth_error (g_peers g) from) as [q|] eqn:Eq; [|exact (conj A C)].
+    split; [exact A|]. simpl. intro H. destruct (C H) as [C1 C2]. split; [|exact C2].
+    intros p Hn. rewrite nth_error_set_nth in Hn. destruct (Nat.eqb_spec j from) as [->|Hne]; [|apply C1; exact Hn].
+    rewrite Eq in Hn. inversion Hn. simpl. apply (C1 q). exact Eq.
+  - simpl. unfold ostep. destruct (g_pc g) eqn:Hpc.
+    + assert (G : forall cache qe q,
+                FInv j (mkG (g_peers g) q (next_dec (length (g_peers g)) 0) t [] cache qe t (g_emitted g) (g_log g))).
+      { intros cache qe q. split; [exact A|]. simpl. intro H. destruct (C H) as [C1 _]. split; [exact C1|].
+        unfold next_dec. destruct (0 <? length (g_peers g))%nat; exact I. }
+      destruct fixed; [destruct (g_queue g)|]; apply G.
+    + destruct (nth_error (g_peers g) k); (split; [exact A|]; simpl; intro H; destruct (C H) as [C1 _]; split; [exact C1 | exact I]).
+    + destruct (nth_error (g_peers g) k).
+      * destruct fixed.
+        -- apply FInv_decided; [exact A | intro H; apply C; exact H].
+        -- split; [exact A|]. simpl. intro H. destruct (C H) as [C1 _]. split; [exact C1 | exact I].
+      * split; [exact A|]. simpl. intro H. destruct (C H) as [C1 _]. split; [exact C1 | exact I].
+    + apply FInv_decided; [exact A | intro H; apply C; exact H].
+    + destruct (g_ol g) as [|[k m] rest] eqn:Eol.
+      * split; [exact A|]. simpl. intro H. destruct (C H) as [C1 _]. split; [exact C1 | exact I].
+      * destruct (nth_error (g_peers g) k) as [pk|] eqn:Ek.
+        -- assert (G : forall cache q pay,
+                     FInv j (mkG (set_nth k (pre_send m pk) (g_peers g)) q
+                                 (PSend k m (msg_flags pk) pay (length (g_emitted g)))
+                                 (g_now g) rest cache (g_qe g) (g_clock g) (g_emitted g) (g_log g))).
+           { intros cache q pay. split; [exact A|]. simpl. intro H. destruct (C H) as [C1 _]. split.
+             - intros p Hn. rewrite nth_error_set_nth in Hn. destruct (Nat.eqb_spec j k) as [->|Hne]; [|apply C1; exact Hn].
+               rewrite Ek in Hn. inversion Hn. rewrite fr_pre_send. apply C1. exact Ek.
+             - intros ->. unfold msg_flags. apply C1. exact Ek. }
+           destruct m; [destruct fixed; [|destruct (pop_queue (g_cache g) (g_queue g))]| |]; apply G.
+        -- split; [exact A|]. simpl. intro H. destruct (C H) as [C1 _]. split; [exact C1 | exact I].
+    + destruct (nth_error (g_peers g) k) as [pk|] eqn:Ek.
+      * split.
+        -- simpl. split; [|exact A]. intros Hk He. subst k. destruct (C He) as [_ C2]. apply C2. reflexivity.
+        -- simpl. intro H. apply Bool.orb_false_iff in H. destruct H as [H1 H2]. destruct (C H2) as [C1 _]. split.
+           ++ intros p Hn. rewrite nth_error_set_nth in Hn. destruct (Nat.eqb_spec j k) as [->|Hne]; [|apply C1; exact Hn].
+              rewrite Ek in Hn. inversion Hn. destruct (err_of outc), m; simpl; apply (C1 pk); exact Ek.
+           ++ destruct (err_of outc) eqn:Ee; simpl; [|exact I].
+              intros ->. rewrite Nat.eqb_refl in H1. discriminate.
+      * split; [exact A|]. simpl. intro H. destruct (C H) as [C1 _]. split; [exact C1 | exact I].
+    + split; [exact A|]. simpl. intro H. destruct (C H) as [C1 C2]. simpl in C2. split; [|exact I].
+      intros p Hn. rewrite nth_error_upd_peer in Hn. destruct (Nat.eqb_spec j k); [congruence|]. apply C1; exact Hn.
+    + split; [exact A|]. simpl. intro H. destruct (C H) as [C1 _]. split; [|exact I].
+      intros p Hn. rewrite nth_error_upd_peer in Hn. destruct (Nat.eqb_spec j k) as [->|Hne]; [|apply C1; exact Hn].
+      destruct (nth_error (g_peers g) k) as [q|] eqn:Eq; simpl in Hn; [|discriminate]. inversion Hn. simpl.
+      apply (C1 q). reflexivity.
+Qed.
+
+(* every schedule whatsoever: interleavings, faults, any clock *)
+Theorem flag_until_first_delivery : forall fixed c ps q clock j g,
+  (forall p, nth_error ps j = Some p -> fr p = true) ->
+  reach fixed c (fun _ _ => True) (ginit ps q clock) g -> flag_kept j (g_log g).
+Proof.
+  intros fixed c ps q clock j g H0 Hr.
+  assert (H : FInv j g).
+  { induction Hr as [|g a Hr IH _]; [|apply FInv_step; exact IH].
+    split; [exact I|]. simpl. intros _. split; [exact H0 | exact I]. }
+  exact (proj1 H).
+Qed.
+
+(* ------------------------------------------------------------------ D10: the race *)
+Definition d10_cfg : tcfg := mkCfg 30 60 5 5 10 (true, true, true, true, true).
+Definition d10_peers : list peer := [mkPeer 2000 2000 false [] [] [] 11].
+Definition d10_note : note := mkNote [] [] [7].
+Definition s1 : act := OStep 2005 (mkNote [] [] [3; 7]) 0.
+(* the survivor has one change to send: start (item taken), last_comms read (2000: in contact), last_attempt read
+   -> SYNC, message built, handed to the socket layer and delivered; THE RESTARTED PEER'S FIRST MESSAGE IS HANDLED
+   (RESET -> clear_last); last_comms := 2005; last_attempt := 2005; end of the iteration.
+   Then 25 seconds later another iteration: nothing at all is sent. *)
+Definition d10_sched : list act := [s1; s1; s1; s1; s1; XReset 0%nat; s1; s1; s1].
+Definition s2 : act := OStep 2030 (mkNote [] [] [3; 7]) 0.
+
+Theorem reset_race_refuted :
+  exists fixed c ps q acts,
+    sched_ok (act_real c) fixed c (ginit ps q 2000) acts /\
+    let g := mrun fixed c (ginit ps q 2000) acts in
+    g_pc g = PIdle /\
+    (* exactly the window: the RESET was handled after the decision read last_comms and before it was written *)
+    (exists pre post, acts = pre ++ XReset 0%nat :: post /\ in_window (mrun fixed c (ginit ps q 2000) pre) 0) /\
+    (* the announcement is lost: last_comms reads `now`, no RESYNC was or will be chosen *)
+    map lc (g_peers g) = [2005] /\
+    map (fun e => match e with HAtt a => mode_code (s_mode a) | HReset _ => -1 end) (g_log g) = [-1; 0] /\
+    g_log (mrun fixed c g (repeat s2 12)) = g_log g.
+Proof.
+  exists true, d10_cfg, d10_peers, [d10_note], d10_sched. split.
+  - vm_compute. repeat split; intros; try discriminate.
+  - cbv zeta. split; [vm_compute; reflexivity|]. split.
+    + exists [s1; s1; s1; s1; s1], [s1; s1; s1]. split; [reflexivity|]. vm_compute. left. reflexivity.
+    + vm_compute. repeat split; reflexivity.
+Qed.
+
+(* a RESYNC carries the decider's snapshot, whatever else is going on *)
+Lemma resync_carries_snapshot snap cn p : payload RESYNC snap cn p = snap.
+Proof. reflexivity. Qed.
